@@ -104,6 +104,9 @@ theorem stageOne_req (op : StageOp) (q : Peer) (x : Resp) (e? : Option Entry) :
     ∀ ev ∈ (stageOne op q x e?).2.1, ev.req = x.id := by
   intro ev hev
   cases op with
+  | dropForeignLive =>
+    unfold stageOne at hev
+    cases e? <;> simp at hev
   | filterForPeer =>
     unfold stageOne at hev
     cases e? <;> simp at hev
@@ -224,6 +227,30 @@ theorem filterKeeps_good (c : FilterCond) (hc : GoodFilter c = true) (q : Peer) 
     filterKeeps c q e = (e.peer == q) := by
   obtain ⟨l, r⟩ := c
   cases l <;> cases r <;> simp [GoodFilter] at hc <;> simp [filterKeeps, evalPeer, Bool.beq_comm]
+
+/-- does the drop-foreign stage let response `x` of a message from `q` pass?  (comparison term:
+    `Generated.ReqPipeline.dropCond`; a response whose request is not in the table passes) -/
+def passes (t : Table) (q : Peer) (x : Resp) : Bool :=
+  match t.get x.id with
+  | some e => filterKeeps Generated.ReqPipeline.dropCond q e
+  | none => true
+
+/-- the drop-foreign stage reads the table only -/
+theorem runStage_drop (q : Peer) (t : Table) (l : List Resp) :
+    runStage .dropForeignLive q t l = (t, l.filter (passes t q), []) := by
+  induction l with
+  | nil => simp [runStage]
+  | cons y ys ih =>
+    have hsame : (applyAt t y.id (stageOne .dropForeignLive q y)).1 = t := by
+      apply applyAt_same
+      unfold stageOne
+      cases t.get y.id <;> rfl
+    have hkeep : (applyAt t y.id (stageOne .dropForeignLive q y)).2 = ([], passes t q y) := by
+      rw [applyAt_snd]
+      unfold stageOne passes
+      cases t.get y.id <;> rfl
+    simp only [runStage, hsame, ih, hkeep, List.filter]
+    cases passes t q y <;> simp
 
 /-- the filter stage reads the table only -/
 theorem runStage_filter (q : Peer) (t : Table) (l : List Resp) :
